@@ -53,8 +53,24 @@ def _file_checks(ss, tr, sc, d):
         seen[t] = (x, y)
     n_x, n_y = len(dae.x), len(dae.y)
     if ss.Output.n > 0:
-        xidx = list(ss.Output.xidx)
-        yidx = list(ss.Output.yidx)
+        # the selection as the *specification* reads it: the set of addresses named by the Output
+        # entries, in address order, each once (independent of System.set_output_subidx)
+        sx, sy = set(), set()
+        for model, var, dev in zip(ss.Output.model.v, ss.Output.varname.v, ss.Output.dev.v):
+            mdl = ss.models.get(model)
+            if mdl is None or mdl.n == 0 or not (mdl.flags.tds or mdl.flags.pflow):
+                continue
+            allv = mdl.cache.all_vars
+            if var is not None and var not in allv:
+                continue
+            if dev is not None and dev not in mdl.idx.v:
+                continue
+            for item in (allv.values() if var is None else [allv[var]]):
+                addrs = item.a if dev is None else [item.a[mdl.idx2uid(dev)]]
+                (sx if item.v_code == "x" else sy).update(int(a) for a in addrs)
+        xidx = sorted(sx)
+        yidx = sorted(sy)
+        out_sel_same = (list(ss.Output.xidx) == xidx and list(ss.Output.yidx) == yidx)
     else:
         xidx = list(range(n_x))
         yidx = list(range(n_y))
